@@ -13,6 +13,11 @@ identically seeded generator, the global numpy generator reseeded differently an
 draws made before the second run: outputs identical; `np.random.get_state()` (and Python's
 `random` state) unchanged by the operation; no GLOBAL/FRESH event.
 
+Object-reuse oracle: for every randomised operation that is a method of a reusable object (GaussianDBALScorer with max_triples < C(n,3),
+RandomScorer, SizeScorer -- through score() and score_chunk() --, every plate generator, smoother, the initial-plate generator,
+KPerSamplePlatePolicy; model objects are covered by train_held / train_stub / train_twice) `obj.op(x, rng(s1)); obj.op(x, rng(s2))` on ONE
+object must equal `fresh.op(x, rng(s2))` in output, draw-source trace and final generator state (`C18:object-reuse:<kind>`).
+
 Cross-process oracle: the same seeded cases are run by harness/c18_worker.py in three fresh interpreters with PYTHONHASHSEED=0,1,2 (every
 command-line step is its own process, so "repeated" includes another process); a step whose output depends on the per-process
 string-hash salt (iteration over a set of names deciding which draw goes to which item) is reported with `C18:cross-process:<op>`
@@ -50,7 +55,9 @@ RULE = ("random 2-treatment screens (1-3 samples, 3-6 treatments + control, one-
         "the CLI mains with --seed (prepare_retrospective_simulation, calculate_scores, select_next_plate, train_model, evaluate_model); "
         "seed 0 (the default of every --seed, the falsy boundary) in about a fifth of the cases; SeedSequence() without entropy is "
         "recorded as a FRESH source; each run twice (global generator reseeded differently, unrelated "
-        "global draws interleaved). Cross-process stream: a list of seeded cases (every generator -- PairwisePlateGenerator on all-masked screens with "
+        "global draws interleaved). Object-reuse stream: for GaussianDBALScorer (max_triples < C(n,3)) / RandomScorer / SizeScorer through score() and "
+        "score_chunk(), every plate generator, smoother, the initial-plate generator and KPerSamplePlatePolicy: obj.op(x, rng(s1)); obj.op(x, rng(s2)) on ONE "
+        "object must equal fresh.op(x, rng(s2)) in output, draw trace and final generator state. Cross-process stream: a list of seeded cases (every generator -- PairwisePlateGenerator on all-masked screens with "
         ">= 2 samples that have single-drug rows and several candidate plates --, smoothers, cover, hold-outs, RandomScorer, DBAL sub-sampling, policy, "
         "select_next_plate, score_chunk, sampling.sample of both Gibbs models, prepare_retrospective_simulation.main() --seed) is executed by "
         "harness/c18_worker.py in one fresh interpreter per PYTHONHASHSEED in {0,1,2}; the digests must agree. Shape parameters of the model trace are computed from the operation's inputs, except the "
@@ -1252,6 +1259,128 @@ def judge_xproc(cases, hashseeds, res, count=None):
                      signature="C18:cross-process:" + case["op"])
 
 
+# ------------------------------------------------------------------ object-reuse stream
+# every randomised operation that is a METHOD of a reusable object: obj.op(x, rng(seed1)) then obj.op(x, rng(seed2)) on the SAME object
+# must be exactly fresh.op(x, rng(seed2)) -- output, draw-source trace AND state of the generator afterwards (a cache that outlives
+# the call and makes the second call skip its draws ignores the generator it is handed and does not advance it)
+def _reuse_make(case):
+    """(object, call(obj, G) -> canonical output, model trace line or None); inputs are rebuilt for every call"""
+    k = case["kind"]
+    if k in ("dbal_scorer", "random_scorer", "size_scorer", "dbal_score_chunk", "random_score_chunk"):
+        sk = "dbal" if k.startswith("dbal") else "random" if k.startswith("random") else "size"
+        obj = _make_scorer(sk)
+
+        def inputs():
+            s = build_screen(case["screen"])
+            thetas = make_thetas(pyrandom.Random(case["data_seed"]), s, case["n_thetas"])
+            return s, thetas, make_dist(case["n_thetas"])
+        if k.endswith("score_chunk"):
+            from batchie.scoring.main import score_chunk
+
+            def call(o, G):
+                s, thetas, dm = inputs()
+                with quiet():
+                    return canon_scores_holder(score_chunk(scorer=o, thetas=thetas, screen=s, distance_matrix=dm, rng=G, n_chunks=1, chunk_index=0))
+            s0 = build_screen(case["screen"])
+            line = "c18.trace scoreChunk scorer=%s n=%d" % (sk, _chunk_count(s0, [], 1, 0, sk))
+        else:
+            def call(o, G):
+                s, thetas, dm = inputs()
+                plates = {p.plate_id: p for p in s.plates if not p.is_observed}
+                with quiet():
+                    return canon_scores(o.score(plates=plates, distance_matrix=dm, samples=thetas, rng=G, progress_bar=False))
+            s0 = build_screen(case["screen"])
+            npl = sum(1 for p in s0.plates if not p.is_observed)
+            line = "c18.trace scorer scorer=%s n=%d" % (sk, (0 if npl == 0 else int(math.ceil(npl / 2.0))) if sk == "dbal" else npl)
+        return obj, call, line
+    if k == "generator":
+        return make_generator(case["gen"]), (lambda o, G: canon_screen(o.generate_plates(build_screen(case["screen"]), G))), None
+    if k == "smoother":
+        return make_smoother(case["smoother"]), (lambda o, G: canon_screen(o.smooth_plates(build_screen(case["screen"]), G))), None
+    if k == "sparse_cover":
+        from batchie.retrospective import SparseCoverPlateGenerator
+        return (SparseCoverPlateGenerator(reveal_single_treatment_experiments=case["reveal"]),
+                (lambda o, G: canon_screen(o.generate_and_unmask_initial_plate(build_screen(case["screen"]), G))), None)
+    if k == "policy":
+        from batchie.policies.k_per_sample import KPerSamplePlatePolicy
+
+        def call(o, G):
+            s = build_screen(case["screen"])
+            un = sorted([p for p in s.plates if not p.is_observed], key=lambda p: p.plate_id)
+            return ",".join(str(p.plate_id) for p in o.filter_eligible_plates(batch_plates=un[:case["n_batch"]], unobserved_plates=un[case["n_batch"]:], rng=G))
+        return KPerSamplePlatePolicy(k=case["k"]), call, "c18.trace kPerSamplePolicy"
+    raise KeyError(k)
+
+
+def _reuse_call(obj, call, seed, gseed_variant, case):
+    _perturb(case["gseed"], gseed_variant)
+    ins = Instr()
+    r = {"events": ins.events}
+    before = global_sig()
+    with ins:
+        G = ins.make_g(seed)
+        try:
+            r["out"] = call(obj, G)
+        except Exception as e:
+            r["out"] = "err:" + type(e).__name__
+    r["gstate_same"] = global_sig() == before
+    r["gen_state"] = repr(G._gen.bit_generator.state)
+    return r
+
+
+def judge_reuse(case, res, queue=None):
+    used, call, line = _reuse_make(case)
+    fresh, call_f, _ = _reuse_make(case)
+    first = _reuse_call(used, call, case["seed1"], 0, case)
+    second = _reuse_call(used, call, case["seed2"], 1, case)
+    ref = _reuse_call(fresh, call_f, case["seed2"], 2, case)
+    kind = case["kind"]
+    what = None
+    if second["out"] != ref["out"]:
+        what = ("the second call on a used object gives a different output than the same call (same inputs, identically seeded generator) on a fresh object")
+    elif second["events"] != ref["events"]:
+        what = "the second call on a used object makes different draws than the same call on a fresh object (draws skipped / added: the object remembers an earlier call)"
+    elif second["gen_state"] != ref["gen_state"]:
+        what = "after the second call on a used object the generator it was handed is in a different state than after the same call on a fresh object"
+    if what is not None:
+        res.fail("object reuse (%s): %s" % (kind, what), case,
+                 {"second_call_on_used_object": {"out": second["out"][:160], "events": second["events"][:30], "n_events": len(second["events"])},
+                  "first_call_events": len(first["events"])},
+                 {"same_call_on_fresh_object": {"out": ref["out"][:160], "events": ref["events"][:30], "n_events": len(ref["events"])}},
+                 signature="C18:object-reuse:" + kind)
+    bad = sorted({e for r in (first, second, ref) for e in r["events"] if not e.startswith("G.")})
+    if bad:
+        res.fail("operation draws from a source other than the generator it was given", case, {"non_G": bad}, "every draw from G", signature="C18:non-G-draw:reuse_" + kind)
+    if not (first["gstate_same"] and second["gstate_same"] and ref["gstate_same"]):
+        res.fail("operation perturbs the process-global random state", case, {}, "global state unchanged", signature="C18:global-state-perturbed:reuse_" + kind)
+    if queue is not None and line is not None and not second["out"].startswith("err:"):
+        # the model has no object state: the trace of the SECOND call must be the model's trace for these arguments
+        queue("reuse-second-call:" + kind, case, line, ",".join(second["events"]) if second["events"] else "-")
+    return second, (not second["out"].startswith("err:") and len(ref["events"]) > 0)
+
+
+def gen_reuse_case(rng, kind):
+    s1 = rng.getrandbits(31)
+    case = {"op": "reuse", "kind": kind, "seed1": s1, "seed2": (0 if rng.random() < 0.15 else s1 + 1 + rng.getrandbits(20)), "gseed": rng.getrandbits(31)}
+    if kind.endswith("scorer") or kind.endswith("score_chunk"):
+        case.update(screen=gen_raw_screen(rng, all_masked=rng.random() < 0.5), n_thetas=rng.randint(5, 6), data_seed=rng.getrandbits(31))   # C(5,3)=10, C(6,3)=20 > max_triples=4
+    elif kind == "generator":
+        pw = rng.random() < 0.4
+        case.update(screen=(gen_pairwise_screen(rng) if pw else gen_raw_screen(rng, all_masked=rng.random() < 0.3)),
+                    gen=({"kind": "pairwise", "subset_size": 1, "anchor_size": rng.choice([0, 1])} if pw else gen_generator_spec(rng)))
+    elif kind == "smoother":
+        case.update(screen=gen_raw_screen(rng, all_masked=rng.random() < 0.3), smoother=gen_smoother_spec(rng))
+    elif kind == "sparse_cover":
+        case.update(screen=gen_raw_screen(rng, all_observed=True), reveal=rng.random() < 0.5)
+    elif kind == "policy":
+        case.update(screen=gen_raw_screen(rng, all_masked=True), k=rng.randint(1, 3), n_batch=rng.randint(0, 2))
+    return case
+
+
+REUSE_PLAN = [("dbal_scorer", 6), ("dbal_score_chunk", 4), ("random_scorer", 3), ("random_score_chunk", 2), ("size_scorer", 1), ("generator", 8), ("smoother", 8),
+              ("sparse_cover", 3), ("policy", 2)]
+
+
 def warm_up():
     """import everything the CLI steps import lazily (seaborn/scipy.stats run generator code at import time) BEFORE instrumenting"""
     import importlib
@@ -1324,6 +1453,17 @@ def run(ctx, res):
                 res.count(op + "." + case["model"]["kind"])
             if 0 in (case.get("seed"), case.get("s1"), case.get("s2")):
                 res.count("seed0." + op)
+    # object-reuse stream
+    rrng = ctx.subrng("c18reuse")
+    for kind, w in REUSE_PLAN:
+        for t in range(w * ctx.scale(1, 8, 4)):
+            case = gen_reuse_case(rrng, kind)
+            res.evaluations += 1
+            res.count("reuse." + kind)
+            _, nontrivial = judge_reuse(case, res, queue)
+            if nontrivial:
+                res.nontrivial.add(common.short_hash(case))
+                res.count("reuse.drew." + kind)
     # cross-process stream: the same seeded cases in one fresh interpreter per PYTHONHASHSEED
     xcases = gen_xproc_cases(ctx.subrng("c18x"), 2 if ctx.tier == "quick" else 8)
 
@@ -1350,6 +1490,10 @@ def run(ctx, res):
 
 
 def replay(ctx, case, res):
+    if case.get("op") == "reuse":
+        warm_up()
+        judge_reuse(case, res, None)
+        return
     if case.get("op") == "xproc":
         judge_xproc([case["inner"]], list(case["hashseeds"]) + [h for h in (0, 1, 2, 3, 4, 5) if h not in case["hashseeds"]], res)
         return
